@@ -44,6 +44,21 @@ func genSeekOffset(t *rapid.T, fc *fileCase) int64 {
 	}
 }
 
+// nestingWriter runs onFirst inside its first Write.
+type nestingWriter struct {
+	buf     bytes.Buffer
+	onFirst func()
+}
+
+func (w *nestingWriter) Write(p []byte) (int, error) {
+	if w.onFirst != nil {
+		f := w.onFirst
+		w.onFirst = nil
+		f()
+	}
+	return w.buf.Write(p)
+}
+
 func TestC04_P_ReadSeekModel(t *testing.T) {
 	ev := newEvid(t, c04Rule)
 	rapid.Check(t, func(t *rapid.T) {
@@ -246,6 +261,58 @@ func TestC04_P_ReadSeekModel(t *testing.T) {
 				}
 				classes["copy"]++
 				armed[i] = "copy"
+			},
+			"nestedCopy": func(t *rapid.T) {
+				// two copies in flight at once on one goroutine: the destination of the first copy, when it is first written
+				// to, copies a second reader of the same file to its end (a tee that serves another request, a writer that
+				// flushes a side stream). Whatever scratch space the copies use, each must deliver its own reader's bytes.
+				if len(readers) < 2 {
+					t.Skip("one reader")
+				}
+				if fc.St.FailReadAt != 0 && len(fc.St.ReadLog()) < fc.St.FailReadAt {
+					t.Skip("a transient fault is armed")
+				}
+				i := rapid.IntRange(0, len(readers)-1).Draw(t, "outer")
+				j := (i + 1 + rapid.IntRange(0, len(readers)-2).Draw(t, "innerOffset")) % len(readers)
+				ra, rb := readers[i], readers[j]
+				var inner bytes.Buffer
+				var ierr error
+				innerRan := false
+				runInner := func() {
+					innerRan = true
+					_, ierr = io.Copy(&inner, rb.rs)
+				}
+				outer := &nestingWriter{onFirst: runInner}
+				var oerr error
+				must(t, "nested io.Copy", func() {
+					_, oerr = io.Copy(outer, ra.rs)
+					if !innerRan {
+						runInner()
+					}
+				})
+				if oerr != nil || ierr != nil {
+					t.Fatalf("C04 [%s] readers %d/%d: nested io.Copy: outer %v, inner %v", fc.Desc, i, j, oerr, ierr)
+				}
+				for _, c := range []struct {
+					r   *readerModel
+					got []byte
+					who string
+				}{{ra, outer.buf.Bytes(), "outer"}, {rb, inner.Bytes(), "inner"}} {
+					var want []byte
+					if c.r.pos < n {
+						want = fc.Data[c.r.pos:]
+					}
+					if !bytes.Equal(c.got, want) {
+						t.Fatalf("C04 [%s] readers %d/%d: two io.Copy calls in flight at once (the second started from the first one's writer): the %s copy from %d delivered %d bytes that differ from the file's at %d (want %d bytes)", fc.Desc, i, j, c.who, c.r.pos, len(c.got), firstDiff(c.got, want), len(want))
+					}
+					if c.r.pos < n {
+						c.r.pos = n
+					}
+				}
+				armed[i], armed[j] = "copy", "copy"
+				lastReader = j
+				interleaved = true
+				classes["nested-copy"]++
 			},
 			"copyIntoFailingWriter": func(t *rapid.T) {
 				// io.Copy into a destination that accepts a drawn number of bytes and then fails (a closed pipe, a full disk).
